@@ -29,28 +29,27 @@ def fsPieces (fs : FS) (atEnd : Bool) : List Name → Nat → Nat → List Char 
     if (!atEnd || j != last) && fs.islink base then (base, false)
     else fsPieces fs atEnd r (j + 1) last base
 
-/-- the loop over `m.groups()`; `base = none` until the first non-empty group (the code
-    initialises it once — `if base is None` — and keeps extending it for later groups) -/
-def fsGroups (fs : FS) (filename : List Char) : List (Option (Nat × Nat)) → Option (List Char) → Bool
-  | [], _ => true
-  | none :: r, base => fsGroups fs filename r base
-  | some (st, en) :: r, base =>
+/-- the loop over `m.groups()`; `base` is recomputed for every non-empty group from the
+    group's own start (`base = os.path.join(root, filename[:m.start(i)])`, the G3 repair), and
+    a group is "at the end" when it reaches the last character or the very end of the
+    path (`at_end = m.end(i) >= end`, the D7 repair) -/
+def fsGroups (fs : FS) (filename : List Char) : List (Option (Nat × Nat)) → Bool
+  | [] => true
+  | none :: r => fsGroups fs filename r
+  | some (st, en) :: r =>
     let star := (filename.take en).drop st
-    if star.isEmpty then fsGroups fs filename r base
+    if star.isEmpty then fsGroups fs filename r
     else
-      let atEnd := (en : Int) == (filename.length : Int) - 1
+      let atEnd := decide ((en : Int) ≥ (filename.length : Int) - 1)
       let parts := splitSlash (stripSlash star)
-      let base0 := match base with
-        | some b => b
-        | none => filename.take st
-      let res := fsPieces fs atEnd parts 1 parts.length base0
-      if res.2 then fsGroups fs filename r (some res.1) else false
+      let res := fsPieces fs atEnd parts 1 parts.length (filename.take st)
+      if res.2 then fsGroups fs filename r else false
 
 /-- `_fs_match` (63-133) -/
 def fsMatch (fs : FS) (r : Re) (filename : List Char) (follow : Bool) : Bool :=
   match r.fullmatchCap filename with
   | none => false
-  | some groups => if follow then true else fsGroups fs filename groups none
+  | some groups => if follow then true else fsGroups fs filename groups
 
 /-- `_match_real` (135-184) -/
 def matchRealCore (fs : FS) (o : MatchObj) (filename : List Char) : Bool :=
